@@ -157,6 +157,34 @@ def check_codec(ctx, rep, wq, rq, label, expect_all_fields):
                     if not okg:
                         rep.add("R2", rfi.qname, g.test, f"whether the saved '{k}' is restored depends on `{', '.join(sorted(names - derived))}`, not only on "
                                 f"the saved value: some trees do not reload exactly", rfi.loc(g))
+    # what is restored is what was saved: the values handed to the restoring setters / add_* methods are the saved items themselves
+    # (names, subscripts, loop variables), not the result of a function applied to them
+    body_names = set(bodyvars)
+    for n in ast.walk(rfi.node):
+        if isinstance(n, ast.Assign) and len(n.targets) == 1 and isinstance(n.targets[0], ast.Name) and any(
+                isinstance(x, ast.Name) and x.id in body_names for x in ast.walk(n.value)) and not isinstance(n.value, ast.Call):
+            body_names.add(n.targets[0].id)
+        if isinstance(n, ast.For) and any(isinstance(x, ast.Name) and x.id in body_names for x in ast.walk(n.iter)):
+            for x in ast.walk(n.target):
+                if isinstance(x, ast.Name):
+                    body_names.add(x.id)
+    for n in ast.walk(rfi.node):
+        args = []
+        if isinstance(n, ast.Call) and isinstance(n.func, ast.Attribute) and isinstance(n.func.value, ast.Name) and n.func.value.id == node_var \
+                and n.func.attr in ("add_attribute", "add_extras", "add_namespace"):
+            args = list(n.args)
+        elif isinstance(n, ast.Assign) and any(isinstance(t, ast.Attribute) and isinstance(t.value, ast.Name) and t.value.id == node_var and nm.canon(t.attr)
+                                               and nm.canon(t.attr) != "_parent" for t in n.targets):
+            args = [n.value]
+        for a in args:
+            if not any(isinstance(x, ast.Name) and x.id in body_names for x in ast.walk(a)):
+                continue
+            calls_ = [c for c in ast.walk(a) if isinstance(c, ast.Call) and not (isinstance(c.func, ast.Attribute) and c.func.attr in ("get",))]
+            rep.count(f"{label}: restored values")
+            rep.oblige(("R2", label, "identity", norm(a)[:50]), not calls_)
+            if calls_:
+                rep.add("R2", rfi.qname, a, f"the loader restores `{norm(a)}`, the result of a call on what was saved, not the saved value itself: a tree holding a "
+                        f"value that call changes does not reload as it was", rfi.loc(a))
     for k, (sinks, f, sub) in sinks_by_key.items():
         ok = sinks == {f}
         rep.oblige(("R2", label, "restored", k), ok, sample={"codec": label, "key": k, "restored into": sorted(sinks)})
@@ -335,8 +363,11 @@ def run(ctx, rep):
         "property and the value read back must flow into the same field (constructor argument, setter or add_* method); loaded "
         "children reach add_child; the legacy upgrade's constant-index inserts are executed abstractly on the legacy layout and "
         "must yield the current one with empty defaults")
-    rep.rules_run = ["R1", "R2", "R3", "R4", "R5"]
-    rep.assumptions += ["NOT decided: byte-identical re-serialisation and Unicode fidelity (json library), replay of namespace maps by add_namespace (C13)"]
+    rep.rules_run = ["R1", "R2", "R3", "R4", "R5", "R7"]
+    rep.assumptions += ["NOT decided: Unicode fidelity (json library); R7 decides the round trip per class of filled / empty fields, not for every string"]
+    if getattr(rep, "only", None) in (None, "R7"):
+        from .c06_worlds import rule_r7
+        rule_r7(ctx, rep)
     cur = check_codec(ctx, rep, MIO + "._serialize", MIO + "._from_dict", "current", True)
     leg = check_codec(ctx, rep, MPIO + ".objectify", MPIO + ".from_json", "legacy", False)
     # entry points use the codec functions
